@@ -426,6 +426,9 @@ def run(cx):
     # submission order is queue order: sequence ids are handed out as packets leave the front of the send queue
     from props.C05 import queue_discipline
     queue_discipline(cx, "C01.v")
+    # "bit corruption": the CRC that gates every frame is the polynomial's table-driven recurrence over every byte
+    from props.shared import share_instance
+    share_instance(cx, "C16", "C16.d", "C01.w")
     # a slot the window passes is released whatever its state: stale fragments must not leak into the
     # packet that maps to the same slot one window later
     from props.shared import window_walks
